@@ -161,6 +161,8 @@ func checkC02(c *Ctx) {
 	c.Rule("R9", "a writer blocked in a socket write is woken: the connection is closed after the reader returns and before the writer is joined (shared with C07.R2); no lock is held at a join that the joined goroutines need (shared with C09.R7)")
 	checkCloseBeforeJoin(c, "R9")
 	c.withAlias(map[string]string{"R7": "R9"}, func() { checkWaitForCycles(c) })
+	c.Rule("R12", "a request object serves one request: none is kept in a package-level variable and completed by a second user")
+	checkNoSharedRequestObject(c, "R12")
 	c.Rule("R11", "hook lists (and every other slice field grown in place) own their spare capacity: no initialisation with a two-index sub-slice of storage shared with siblings")
 	checkAppendableFieldsOwnTheirStorage(c, "R11")
 	c.Rule("R10", "a shared connect attempt answers every waiter (shared with C07.R1): the winner stores the connection or the error it returns into the in-flight entry before it releases the waiters, and deletes the entry on every path")
@@ -821,12 +823,17 @@ func checkChildCounters(c *Ctx, e *ownEngine, rule string) {
 					okZero = true
 					zeroBlock = iff.Block().Succs[0]
 				}
-				if bo, ok := r.(*ssa.BinOp); ok && bo.Op == token.EQL && !decIsZeroTest {
+				if bo, ok := r.(*ssa.BinOp); ok && (bo.Op == token.EQL || bo.Op == token.NEQ) && !decIsZeroTest {
 					if z, isC := constInt(bo.Y); isC && z == 0 {
 						for _, u := range *bo.Referrers() {
 							if iff, ok := u.(*ssa.If); ok {
 								okZero = true
-								zeroBlock = iff.Block().Succs[0]
+								// the ==0 side: the true edge of `== 0`, the false edge of `!= 0`
+								if bo.Op == token.EQL {
+									zeroBlock = iff.Block().Succs[0]
+								} else {
+									zeroBlock = iff.Block().Succs[1]
+								}
 							}
 						}
 					}
@@ -1272,5 +1279,66 @@ func checkAppendableFieldsOwnTheirStorage(c *Ctx, rule string) {
 	}
 	if nbad == 0 {
 		c.OK(rule, "fields grown in place own their spare capacity", token.NoPos, fmt.Sprintf("%d fields grown in place, %d stores into them examined", len(grown), n))
+	}
+}
+
+// checkNoSharedRequestObject (C02.R12): a request object serves one request - it owns a done channel that is closed
+// exactly once. A request kept in a package-level variable (a "constant" ASKING request in the style of the shared
+// reply values) is completed again by its second user: close of a closed channel, raised in a backend reader goroutine
+// that nobody recovers, takes the whole proxy down and every request in flight is never answered.
+func checkNoSharedRequestObject(c *Ctx, rule string) {
+	p := c.P
+	var holds func(t types.Type, depth int) bool
+	holds = func(t types.Type, depth int) bool {
+		if depth > 3 {
+			return false
+		}
+		if isReqType(t) {
+			return true
+		}
+		switch u := t.Underlying().(type) {
+		case *types.Pointer:
+			if n := namedOf(u.Elem()); n != nil && n.Obj().Pkg() != nil && n.Obj().Pkg().Path() == modPath+"/"+redisPkg && (n.Obj().Name() == "simpleRequest" || n.Obj().Name() == "rawRequest") {
+				return true
+			}
+			return holds(u.Elem(), depth+1)
+		case *types.Slice:
+			return holds(u.Elem(), depth+1)
+		case *types.Array:
+			return holds(u.Elem(), depth+1)
+		case *types.Map:
+			return holds(u.Elem(), depth+1) || holds(u.Key(), depth+1)
+		case *types.Chan:
+			return holds(u.Elem(), depth+1)
+		}
+		if n := namedOf(t); n != nil && n.Obj().Pkg() != nil && n.Obj().Pkg().Path() == modPath+"/"+redisPkg && (n.Obj().Name() == "simpleRequest" || n.Obj().Name() == "rawRequest") {
+			return true
+		}
+		return false
+	}
+	sp := p.Pkg(redisPkg)
+	if sp == nil {
+		c.Unresolved(rule, "package "+redisPkg)
+		return
+	}
+	var names []string
+	for name, m := range sp.Members {
+		g, ok := m.(*ssa.Global)
+		if !ok {
+			continue
+		}
+		if pos := p.Pos(g.Pos()); strings.Contains(pos, "_test.go") {
+			continue
+		}
+		if pt, ok := g.Type().(*types.Pointer); ok && holds(pt.Elem(), 0) {
+			names = append(names, name)
+		}
+	}
+	sort.Strings(names)
+	for _, name := range names {
+		c.Fail(rule, "package-level request "+name, sp.Members[name].Pos(), "a request object is kept in a package-level variable: its done channel is closed by the first completion, the second user completes it again - close of a closed channel in a goroutine nobody recovers crashes the proxy, and no request in flight is answered")
+	}
+	if len(names) == 0 {
+		c.OK(rule, "no package-level request object", sp.Pkg.Scope().Pos(), "every request is built for one use")
 	}
 }
